@@ -84,7 +84,16 @@ def shard(ctx):
             if not srcs[a]:
                 continue
             k = rng.choice(list(srcs[a]))
-            srcs[b][k] = srcs[a][k] if rng.random() < 0.3 else rng.choice(VALS)
+            how = rng.random()
+            if how < 0.25:
+                srcs[b][k] = srcs[a][k]
+            elif how < 0.6:
+                srcs[b][k] = rng.choice(VALS)
+            else:
+                # both sources give the key a map, with disjoint inner keys (nothing inside clashes): still the same top-level key twice
+                srcs[a][k] = {"inner_a": 1, "shared_name": {"x": 1}}
+                srcs[b][k] = {"inner_b": [2], "other": {"y": 2}}
+                ctx.res.counts["overlap_with_map_values"] += 1
             which = "data-vs-param" if 0 in (a, b) else "param-vs-param"
         extra_data = rng.random() < 0.3
         fl = {"r.guard": rtext, "m.json": json.dumps(M), "d.json": json.dumps(Dm)}
